@@ -135,6 +135,8 @@ type File struct {
 	Decls []string `json:",omitempty"` // raw top-level declarations (same text in both renderings except type names)
 	RefDecls []string `json:",omitempty"`
 	UsesAPI bool // file imports the go-co API
+	Extern  []*Func `json:",omitempty"` // entries defined by raw declarations (registry only)
+	Imports []string `json:",omitempty"` // extra import lines (both renderings)
 }
 
 type Prog struct {
@@ -574,7 +576,7 @@ func (p *Prog) RenderFile(f *File, m Mode) string {
 	o.ind++
 	if m.Ref {
 		o.line("%q", "verif/sim/refco")
-	} else if f.UsesAPI && len(f.Funcs) > 0 {
+	} else if f.UsesAPI && (len(f.Funcs) > 0 || len(f.Extern) > 0) {
 		switch p.Import {
 		case "co":
 			o.line("%q", "github.com/goghcrow/go-co")
@@ -588,12 +590,15 @@ func (p *Prog) RenderFile(f *File, m Mode) string {
 		}
 	}
 	o.line("%q", "verif/sim/vrt")
+	for _, imp := range f.Imports {
+		o.line("%s", imp)
+	}
 	o.ind--
 	o.line(")")
 	o.line("")
 	if m.Ref {
 		o.line("var _ = refco.KillAll")
-	} else if f.UsesAPI && len(f.Funcs) > 0 && p.SeqImported {
+	} else if f.UsesAPI && (len(f.Funcs) > 0 || len(f.Extern) > 0) && p.SeqImported {
 		o.line("var _ seq.Iterator[int]")
 	}
 	o.line("var _ = vrt.E")
@@ -616,6 +621,18 @@ func (p *Prog) RenderFile(f *File, m Mode) string {
 
 // RenderFunc renders a single function (samples, replay files).
 func (p *Prog) RenderFunc(f *Func, m Mode) string {
+	for _, file := range p.Files {
+		for _, e := range file.Extern {
+			if e == f {
+				m.Import = p.Import
+				d := file.Decls
+				if m.Ref && file.RefDecls != nil {
+					d = file.RefDecls
+				}
+				return subst(strings.Join(d, "\n"), m)
+			}
+		}
+	}
 	o := &w{m: m}
 	m.Import = p.Import
 	o.m = m
@@ -628,7 +645,7 @@ func (p *Prog) RenderReg() string {
 	var b strings.Builder
 	fmt.Fprintf(&b, "package %s\n\nimport \"verif/sim/vrt\"\n\nvar Entries = []vrt.Entry{\n", p.Pkg)
 	for _, f := range p.Files {
-		for _, fn := range f.Funcs {
+		for _, fn := range append(append([]*Func{}, f.Funcs...), f.Extern...) {
 			if fn.Hidden {
 				continue
 			}
